@@ -202,3 +202,39 @@ Theorem c08_src_new_gen : forall step, - 2 ^ 31 <= step < 2 ^ 31 ->
   end.
 Proof. exact src_new_gen. Qed.
 Print Assumptions c08_src_new_gen.
+
+(* ---------------------------------------------------------------------------------------
+   The guard at the source: RedisStore.Incr and EtcdStore.Incr, regenerated from store_redis.go
+   and store_etcd.go on every run (Generated/StoreGuards.v, the database round trip external),
+   ARE the model's guard — the client's error is passed on with lastId kept; otherwise the
+   result is guard's — and once lastId is set the guard refuses exactly the counters that did
+   not grow.  (C08/SourceGuards.v; the mysql and mongo Incr are outside the translator's
+   subset and are tied by executing them against fakes of their servers.) *)
+From FV Require Import Generated.StoreGuards C08.SourceGuards.
+
+Theorem c08_src_redis_incr : forall last cnt err,
+  go_RedisStore_Incr last cnt err =
+  if negb (err =? 0) then (0, err, last) else guard_as_incr last cnt.
+Proof. exact src_redis_incr. Qed.
+Print Assumptions c08_src_redis_incr.
+
+Theorem c08_src_etcd_incr : forall last rev err,
+  go_EtcdStore_Incr last rev err =
+  if negb (err =? 0) then (0, err, last) else guard_as_incr last rev.
+Proof. exact src_etcd_incr. Qed.
+Print Assumptions c08_src_etcd_incr.
+
+Theorem c08_src_guard_refuses_exactly : forall last cnt,
+  last <> 0 ->
+  (fst (fst (go_RedisStore_Incr last cnt 0)) = cnt /\ snd (fst (go_RedisStore_Incr last cnt 0)) = 0 /\
+   snd (go_RedisStore_Incr last cnt 0) = cnt <-> last < cnt) /\
+  (snd (fst (go_RedisStore_Incr last cnt 0)) = go_err_uuid_ErrIDOutOfRange /\
+   snd (go_RedisStore_Incr last cnt 0) = last <-> cnt <= last).
+Proof. exact src_guard_refuses_exactly. Qed.
+Print Assumptions c08_src_guard_refuses_exactly.
+
+Example c08_example_src_guard :
+  (go_RedisStore_Incr 5 9 0 = (9, 0, 9)) /\ (go_RedisStore_Incr 5 5 0 = (0, go_err_uuid_ErrIDOutOfRange, 5)) /\
+  (go_EtcdStore_Incr 5 3 0 = (0, go_err_uuid_ErrIDOutOfRange, 5)) /\ (go_EtcdStore_Incr 0 (-4) 0 = (-4, 0, -4)) /\
+  (go_EtcdStore_Incr 5 9 77 = (0, 77, 5)).
+Proof. vm_compute. repeat split; reflexivity. Qed.
